@@ -7,6 +7,9 @@ sys.path.insert(0, os.path.dirname(os.path.abspath(__file__)))
 import common  # noqa: E402
 
 
+_SHARED_FORBIDDEN: set = set()      # one (empty) set object handed to every control query of the process
+
+
 def observe(case, warmup=0):
     import plain
     from biobalm.control import succession_control
@@ -33,6 +36,7 @@ def observe(case, warmup=0):
             try:
                 common.guarded(20, other.build)
                 succession_control(other, {other.network.variable_names()[0]: 1})
+                succession_control(other, {other.network.variable_names()[-1]: 1}, strategy="all", forbidden_drivers=_SHARED_FORBIDDEN)
             except Exception:
                 pass
     sd = plain.make_sd_ordered(case)
@@ -60,7 +64,7 @@ def observe(case, warmup=0):
     obs["seeds"] = seeds
     t = plain.resolve_target(case["target"], ni)
     try:
-        ivs = succession_control(sd, t, strategy=case["strategy"], successful_only=False)
+        ivs = succession_control(sd, t, strategy=case["strategy"], successful_only=False, forbidden_drivers=_SHARED_FORBIDDEN)
         obs["control"] = [[[sorted(m.items()) for m in iv.succession], [[list(d.items()) for d in c] for c in iv.control],
                            iv.successful, str(iv)] for iv in ivs]
     except RuntimeError:
